@@ -297,7 +297,7 @@ func (cmd commandEprt) Execute(conn *Conn, param string) {
 		conn.writeMessage(425, "Data connection failed")
 		return
 	}
-	conn.dataConn = socket
+	conn.setDataConn(socket)
 	conn.writeMessage(200, "Connection established ("+strconv.Itoa(port)+")")
 }
 
@@ -335,7 +335,7 @@ func (cmd commandEpsv) Execute(conn *Conn, param string) {
 
 	log.Debugf("EPSV: new socket on port: %d", socket.Port)
 
-	conn.dataConn = socket
+	conn.setDataConn(socket)
 	msg := fmt.Sprintf("Entering Extended Passive Mode (|||%d|)", socket.Port())
 	conn.writeMessage(229, msg)
 }
@@ -555,7 +555,7 @@ func (cmd commandPasv) Execute(conn *Conn, param string) {
 
 	log.Debugf("PASV: new socket on port: %d", socket.Port)
 
-	conn.dataConn = socket
+	conn.setDataConn(socket)
 	p1 := socket.Port() / 256
 	p2 := socket.Port() - (p1 * 256)
 	quads := strings.Split(listenIP, ".")
@@ -593,7 +593,7 @@ func (cmd commandPort) Execute(conn *Conn, param string) {
 		conn.writeMessage(425, "Data connection failed")
 		return
 	}
-	conn.dataConn = socket
+	conn.setDataConn(socket)
 	conn.writeMessage(200, "Connection established ("+strconv.Itoa(port)+")")
 }
 
